@@ -20,7 +20,7 @@ JParams == {p \in [typ : JsonTyps, def : Defs \ {"code"}, doc : {"plain", "absen
 SmallParams == {p \in JParams : p.typ \in {"int", "Opt_str", "Lit", "Opt_Lit2"} /\ p.doc = "plain"}
 NoRet == [typ |-> "none", def |-> "absent", doc |-> "absent"]
 Rets == {NoRet, [typ |-> "int", def |-> "absent", doc |-> "plain"]}
-IDocs == {"one", "absent"}
+IDocs == {"one", "absent", "multi"}      \* "multi": a summary line, a blank line, a second paragraph (the paragraph break is part of the prose)
 ParamSeqs == {<<>>} \cup {<<p>> : p \in JParams} \cup (IF MaxParams >= 2 THEN {<<p, r>> : p \in JParams, r \in SmallParams} ELSE {})
 
 JType(t) == CASE Base(t) = "int" -> "integer" [] Base(t) = "float" -> "number" [] Base(t) \in {"str", "Lit", "Lit2", "LitP"} -> "string"
